@@ -32,8 +32,10 @@
    FIFO; bytes already received stay readable after the other side has gone),
    encoding/json (a reply is accepted as peer info iff it starts with '{'), the Go
    scheduler (the order of [op]s is arbitrary).  [hazard] is the decidable region of
-   loop schedules in which a registration is lost or resurrected (findings K6, K6b and
-   one sibling window); the convergence theorem holds outside it.  No proofs here. *)
+   loop schedules in which a registration is lost or resurrected (finding K6 and one
+   sibling window); the convergence theorem holds outside it.  (A third region — a
+   reconnect inside a deletion, K6b — was closed by the fix that makes connectCallback
+   skip exiting objects; [g_skip_exiting] says whether the source still does.)  No proofs here. *)
 From Coq Require Import List NArith ZArith Bool.
 From RecordUpdate Require Import RecordUpdate.
 From NSQV Require Import gen.Consts gen.SyncTab model.Judge.
@@ -50,6 +52,7 @@ Record cfg := mkCfg {
   g_close : bool;            (* Command closes the peer on any write / read error *)
   g_reg_topics : bool;       (* connectCallback: REGISTER topic "" for a topic without channels *)
   g_reg_chans : bool;        (* connectCallback: REGISTER topic channel for every channel *)
+  g_skip_exiting : bool;     (* connectCallback: topics / channels with Exiting() are not registered *)
   g_unreg_topic : bool;      (* lookupLoop: topic.Exiting() -> UNREGISTER, else REGISTER *)
   g_unreg_chan : bool;       (* lookupLoop: channel.Exiting() -> UNREGISTER, else REGISTER *)
   g_precreate_first : bool;  (* GetTopic: lookupd channels are created before t.Start() *)
@@ -65,11 +68,13 @@ Definition repo_cfg : cfg :=
          && nsqd_loop_tick_pings_every_peer && nsqd_loop_notifies_every_peer
          && nsqd_loop_reconfigure_closes_removed)
         nsqd_cc_registers_empty_topics nsqd_cc_registers_channels
+        (nsqd_cc_skips_exiting_topics && nsqd_cc_skips_exiting_channels)
         nsqd_loop_topic_exiting_unregisters nsqd_loop_channel_exiting_unregisters
         nsqd_gettopic_precreates_before_start nsqd_gettopic_skips_ephemeral.
 
 Definition good_cfg (c : cfg) : Prop :=
   g_neg c = true /\ g_close c = true /\ g_reg_topics c = true /\ g_reg_chans c = true /\
+  g_skip_exiting c = true /\
   g_unreg_topic c = true /\ g_unreg_chan c = true /\ g_precreate_first c = true /\
   g_skip_eph c = true /\ (16 <= g_max c)%Z.
 
@@ -288,12 +293,15 @@ Definition ids (l : list obj) : list nat := seq 0 (length l).
 Definition chans_of (l : list obj) (p : nat) : list nat :=
   filter (fun j => is_chan_of p (getO l j) && o_map (getO l j)) (ids l).
 
-(* the commands connectCallback builds under the read locks *)
+(* the commands connectCallback builds under the read locks: every topic in the map that is
+   not exiting, with its non-exiting channels (the bare topic if it has none) *)
+Definition reg_chans (c : cfg) (l : list obj) (i : nat) : list nat :=
+  filter (fun j => negb (g_skip_exiting c && o_exit (getO l j))) (chans_of l i).
 Definition registrations (c : cfg) (l : list obj) : list cmd :=
   flat_map (fun i =>
     let o := getO l i in
-    if is_topic o && o_map o then
-      match chans_of l i with
+    if is_topic o && o_map o && negb (g_skip_exiting c && o_exit o) then
+      match reg_chans c l i with
       | [] => if g_reg_topics c then [CReg (KT (o_t o))] else []
       | js => if g_reg_chans c then map (fun j => CReg (KC (o_t (getO l j)) (o_c (getO l j)))) js else []
       end
@@ -561,14 +569,6 @@ Definition run (c : cfg) (x : state) (os : list op) : state := fold_left (step' 
 (* ------------------------------------------------------------------ the region where the loop's schedule loses a registration *)
 Definition bag_has (s : st) (p : obj -> bool) : bool := existsb (fun i => p (getO (objs s) i)) (bag s).
 
-(* a deleted object is still in its map and its UNREGISTER is no longer pending *)
-Definition stale_exiting (s : st) : bool :=
-  existsb (fun i => let o := getO (objs s) i in o_map o && o_exit o && negb (mem i (bag s))) (ids (objs s)).
-Definition may_connect (s : st) : bool :=
-  existsb (fun k => k_conf k && negb (k_state k =? st_connected)%Z) (links s).
-Definition adds_peer (s : st) (addrs : list nat) : bool :=
-  existsb (fun a => negb (k_conf (nth a (links s) fresh_link))) addrs.
-
 (* the (pending) UNREGISTER of exiting object e removes key k at nsqlookupd *)
 Definition removes (e : obj) (k : key) : bool :=
   o_exit e &&
@@ -586,19 +586,16 @@ Definition hazard (s : st) (o : op) : bool :=
       | None => false
       | Some id =>
           let x := getO (objs s) id in
-          (stale_exiting s && may_connect s)
-          || (negb (o_exit x) &&
-              ((* K6: a REGISTER overtakes a pending UNREGISTER for the same name *)
-               bag_has s (fun e => conflicts e x)
-               (* a channel REGISTER after its deleted topic's UNREGISTER *)
-               || match o_parent x with
-                  | Some p => o_exit (getO (objs s) p)
-                              && negb (bag_has s (fun e => is_topic e && o_exit e && N.eqb (o_t e) (o_t x)))
-                  | None => false
-                  end))
+          negb (o_exit x) &&
+          ((* K6: a REGISTER overtakes a pending UNREGISTER for the same name *)
+           bag_has s (fun e => conflicts e x)
+           (* a channel REGISTER after its deleted topic's UNREGISTER *)
+           || match o_parent x with
+              | Some p => o_exit (getO (objs s) p)
+                          && negb (bag_has s (fun e => is_topic e && o_exit e && N.eqb (o_t e) (o_t x)))
+              | None => false
+              end)
       end
-  | Tick => stale_exiting s && may_connect s
-  | Reconfigure addrs => stale_exiting s && adds_peer s addrs
   | _ => false
   end.
 
